@@ -156,6 +156,7 @@ type EnvOpts struct {
 	CallP   int // ‰ of environments with a pending call
 	Flps    []int
 	SameCls bool // reuse scenarios: class numbers shared between environments
+	NoHostP int  // ‰ of environments one of whose task roles is placed on an offer without hostname (LAUNCH nohost); 0 = never
 }
 
 func (b *B) RandEnv(r *rng.R, o EnvOpts) int {
@@ -204,7 +205,34 @@ func (b *B) RandEnv(r *rng.R, o EnvOpts) int {
 	if !o.SameCls && r.P(o.CallP, 1000) {
 		roles = append(roles, P())
 	}
+	if !o.SameCls && o.NoHostP > 0 && r.P(o.NoHostP, 1000) {
+		// the offer for the host of one task role carries no hostname while this environment is created
+		j := r.N(n)
+		if roles[j].At(3).Str() == "ok" {
+			roles[j] = T(roles[j].At(1).Int(), roles[j].At(2).Int(), "nohost", roles[j].At(4).Str(), roles[j].At(5).Str(), roles[j].At(6).Str())
+		}
+	}
 	return b.Env("ok", flps, roles...)
+}
+
+// EnvNoHost: is one of the task / hook roles of environment k placed on an offer without hostname?
+func (b *B) EnvNoHost(k int) bool {
+	if k < 0 || k >= len(b.Envs) {
+		return false
+	}
+	for _, r := range b.Envs[k].At(2).List {
+		switch r.At(0).Str() {
+		case "T":
+			if r.At(3).Str() == "nohost" {
+				return true
+			}
+		case "H":
+			if r.At(5).Str() == "nohost" {
+				return true
+			}
+		}
+	}
+	return false
 }
 
 // Rounds counts rounds / operations of an input (for Nontrivial rules).
